@@ -331,6 +331,9 @@ func genFtp(r *hx.Rand, list bool, pasv string) []byte {
 		case 11:
 			line(caseMix(r, "QUIT"))
 		}
+		if r.Chance(1, 12) { // parameters that make the command panic (or just not): the session ends there
+			line(caseMix(r, r.PickStr([]string{"PORT", "EPRT"})) + " " + r.PickStr([]string{"1,2", "x", "1,2,3,4,5", "|1|", "|1", "|x|", "|2|::1"}))
+		}
 	}
 	if r.Chance(1, 5) && len(b) > 0 {
 		b = b[:r.Intn(len(b))]
@@ -368,6 +371,10 @@ func genSmtp(r *hx.Rand) []byte {
 			line(string(r.BytesFrom(r.Range(1, 12), lineAlphabet[:52])))
 		case 9:
 			line(caseMix(r, "HELO") + " again")
+			if r.Chance(1, 2) { // BDAT without a chunk size: panics once a mail transaction is open
+				line(caseMix(r, "MAIL FROM:<a@b>"))
+				line(caseMix(r, r.PickStr([]string{"BDAT", "BDATx", "bdat"})))
+			}
 		}
 	}
 	if r.Chance(1, 4) && len(b) > 0 {
@@ -539,6 +546,13 @@ func corpus() []Input {
 		{Svc: "adb", Proto: "tcp", N: 2, Kind: "corpus", Conn: Conn{End: "silent", Segs: str(cnxn)}},
 		{Svc: "adb", Proto: "udp", N: 2, Kind: "corpus", Conn: Conn{Segs: str("CNXNshort")}},
 		{Svc: "echo", Proto: "tcp", N: 3, Kind: "corpus", Conn: Conn{End: "silent", Segs: str("a", "b")}},
+		// sessions that end in a recovered panic: everything must be released as after a normal one
+		{Svc: "smtp", Proto: "tcp", N: 10, Kind: "corpus", Conn: Conn{End: "close", Segs: str("HELO x\r\n", "MAIL FROM:<a@b>\r\n", "BDAT\r\n")}},
+		{Svc: "ftp", Proto: "tcp", N: 10, Kind: "corpus", Conn: Conn{End: "close", Segs: with("PORT 1,2\r\n")}},
+		{Svc: "ftp", Proto: "tcp", N: 5, Kind: "corpus", Conn: Conn{End: "close", Segs: with("EPRT |1|\r\n")}},
+		{Svc: "ftp", Proto: "tcp", N: 3, Kind: "corpus", Conn: Conn{End: "close", Dial: "knock", Segs: with("PASV\r\n", "PORT 1,2\r\n")}},
+		{Svc: "ftp", Proto: "tcp", N: 2, Kind: "corpus", Slow: true, Conn: Conn{End: "close", Segs: with("PASV\r\n", "PORT x\r\n")}},
+		{Svc: "adb", Proto: "tcp", N: 10, Kind: "corpus", Conn: Conn{End: "close", Segs: str(cnxn, "OPEN")}},
 		// peers that stop reading
 		{Svc: "echo", Proto: "tcp", N: 2, Kind: "corpus", Conn: Conn{End: "silent", Room: room(0), Segs: str("hello", "world")}},
 		{Svc: "echo", Proto: "tcp", N: 1, Kind: "corpus", Conn: Conn{End: "silent", Room: room(7), Segs: str("hello", "world")}},
@@ -750,6 +764,20 @@ func main() {
 			req, pl := rp.req, rp.pl
 			ins = append(ins, Input{Svc: "ssh-simulator", Proto: "tcp", N: 1, Kind: "sweep", Sweep: &SweepIn{Svc: "ssh-simulator", Scenario: 3, N: 1, Req: req, Payloads: prefixes(pl)}})
 		}
+		// length-structured protocols cut at every position of valid samples (one connection per
+		// prefix, closed after it; and once more with a client that goes silent after it)
+		for _, sv := range []string{"ipp", "redis", "ldap", "snmp", "memcached"} {
+			pls := cutScripts(sv)
+			for _, silent := range []bool{false, true} {
+				if silent && sv == "snmp" {
+					continue
+				}
+				ins = append(ins, Input{Svc: sv, Proto: "tcp", N: len(pls), Kind: "sweep", Sweep: &SweepIn{Svc: sv, Scenario: 10, Silent: silent, N: len(pls), Payloads: pls}})
+			}
+		}
+		// the real server: recovered panics and a shared port with silent clients (waits out the
+		// server's own 30 s idle timeout: beside the pool)
+		ins = append(ins, Input{Svc: "deploy", Proto: "tcp", N: len(deploySteps()), Kind: "sweep", Slow: true, Sweep: &SweepIn{Svc: "deploy", Scenario: 20, N: len(deploySteps())}})
 		// the ftp data channel in every mode; the scenarios that wait out the 30 s passive-socket
 		// timeout sleep most of the time and run beside the worker pool
 		for _, sv := range []string{"ftp-data-plain", "ftp-data-tls"} {
@@ -828,6 +856,9 @@ func main() {
 			sp.SettleMs = passiveMs + 4000
 			if in.Sweep != nil && in.Slow {
 				sp.WaitMs += passiveMs + 15000
+			}
+			if in.Sweep != nil && in.Sweep.Svc == "deploy" {
+				sp.DeadlineMs, sp.WaitMs = realDeadlineMs, 20000 // the server's own idle timeout; generous margin
 			}
 			if in.Sweep != nil && (strings.HasPrefix(in.Sweep.Svc, "ftp-data") || (in.Sweep.Svc == "ssh-simulator" && in.Sweep.Scenario != 2)) {
 				// interactive clients over a pipe: the idle deadline must not bite between two
